@@ -38,7 +38,7 @@ fn inr(x: i128) -> bool {
     x > DMIN && x < DMAX
 }
 
-fn accessor(e: &Epoch, s: usize) -> Duration {
+pub fn accessor(e: &Epoch, s: usize) -> Duration {
     match s {
         S_TAI => e.to_tai_duration(),
         S_TT => e.to_tt_duration(),
@@ -109,6 +109,29 @@ fn conv_oracle(c: &Conv) -> Verdict {
             ensure!(matches!(r, Ok(v) if v as i128 == want), "to_*_nanoseconds for {} gives {:?}, want Ok({})", SCALE_NAMES[c.b], r, want);
         } else {
             ensure!(r.is_err(), "to_*_nanoseconds for {} gives {:?} for count {} (negative or beyond one century), want an error", SCALE_NAMES[c.b], r, want);
+        }
+    }
+    if c.b == S_TT && inr(want + 2_415_021 * NS_D) && inr(want - 3_155_716_800 * NS_S) {
+        // Duration-valued TT views: exact shifts of the TT count
+        let jd = lib!(e.to_jde_tt_duration());
+        ensure!(count(jd) == want + 2_415_020 * NS_D + NS_D / 2, "to_jde_tt_duration = {}, want TT count + 2 415 020.5 d = {}", count(jd), want + 2_415_020 * NS_D + NS_D / 2);
+        let mjd = lib!(e.to_mjd_tt_duration());
+        ensure!(count(mjd) == want + 15_020 * NS_D, "to_mjd_tt_duration = {}, want TT count + 15 020 d", count(mjd));
+        let j2k = lib!(e.to_tt_since_j2k());
+        ensure!(count(j2k) == want - 3_155_716_800 * NS_S, "to_tt_since_j2k = {}", count(j2k));
+    }
+    // integer nanosecond constructors of the GNSS scales: count n in the scale they name, for every u64
+    if c.c >= 0 && c.c <= u64::MAX as i128 {
+        let n = c.c as u64;
+        let built = match c.a {
+            S_GPST => Some(lib!(Epoch::from_gpst_nanoseconds(n))),
+            S_QZSST => Some(lib!(Epoch::from_qzsst_nanoseconds(n))),
+            S_GST => Some(lib!(Epoch::from_gst_nanoseconds(n))),
+            S_BDT => Some(lib!(Epoch::from_bdt_nanoseconds(n))),
+            _ => None,
+        };
+        if let Some(b) = built {
+            ensure!(b.time_scale == SCALES[c.a] && count(b.duration) == c.c && canonical(b.duration), "from_*_nanoseconds({}) for {} has count {} in {:?}", n, SCALE_NAMES[c.a], count(b.duration), b.time_scale);
         }
     }
     if c.b == S_TAI {
